@@ -1,4 +1,5 @@
 import EoNVerif.Proofs.Investigation
+import EoNVerif.Props.C05b
 /-!
 C10 — target statements: the full-data object and the plain arrays describe the same epidemic.
 `Invest.histOf/histories` = node histories built from an event log; `Invest.arraysOf` = the arrays built from the same
